@@ -708,6 +708,7 @@ structure WSig where
   isFloat : Bool := false             -- `SIG_VALTYPE_`
   muxer : Option Str := none          -- extended multiplexing: the multiplexer the signal is bound to and the selector ranges
   ranges : List (Nat × Nat) := []
+  attrs : List (Str × Str) := []      -- attribute name and value as written (`writeCoreF`)
   deriving Repr, DecidableEq, Inhabited
 
 structure WFrame where
@@ -716,6 +717,7 @@ structure WFrame where
   moreSenders : List Str := []     -- the senders after the first
   comment : Option Str := none
   groups : List RGroup := []
+  attrs : List (Str × Str) := []   -- attribute name and value as written (`writeCoreF`)
   deriving Repr, DecidableEq, Inhabited
 
 def WFrame.block (f : WFrame) : Block := ⟨f.bo, f.sigs.map (·.sg)⟩
@@ -830,5 +832,30 @@ def wfDefs (ds : List DefLine) : Bool :=
 /-- attribute lines of one level: well formed, and numeric where the definition of that level says so -/
 def wfAttrs (defs : List RDef) (lvl : Level) (target : BaTarget) (kvs : List (Str × Str)) : Bool :=
   kvs.all fun kv => wfBa ⟨kv.1, target, kv.2⟩ && numericOk { defs := defs } lvl kv.1 kv.2
+
+/-! ## the attributes of frames and signals: `BA_ .. BO_` lines frame by frame, then `BA_ .. SG_` lines signal by signal -/
+
+def WFrame.baStmts (f : WFrame) : List FileStmt := f.attrs.map fun kv => .one (.ba ⟨kv.1, .frame f.bo.id, kv.2⟩)
+def WFrame.sigBaStmts (f : WFrame) : List FileStmt :=
+  f.sigs.flatMap fun s => s.attrs.map fun kv => .one (.ba ⟨kv.1, .signal f.bo.id s.sg.name, kv.2⟩)
+
+/-- the core of a file with all its attribute statements -/
+def writeCoreF (es : List WEcu) (ds : List DefLine) (dds : List DefDefLine) (ga : List (Str × Str)) (fs : List WFrame) : List Str :=
+  [renderBu (es.map (·.name)), []] ++ writeFrames (fs.map WFrame.block) ++
+  writeFile ((fs.flatMap WFrame.txStmts ++ fs.flatMap WFrame.cmStmts ++ fs.flatMap WFrame.sigCmStmts ++ ecuCmStmts es) ++
+    ((defStmts ds ++ defdefStmts dds ++ ecuBaStmts es ++ globalBaStmts ga) ++
+     ((fs.flatMap WFrame.baStmts ++ fs.flatMap WFrame.sigBaStmts) ++
+      (fs.flatMap WFrame.valStmts ++ fs.flatMap WFrame.valtypeStmts ++ fs.flatMap WFrame.grpStmts ++ fs.flatMap WFrame.mulStmts))))
+
+/-- the frame the reader is expected to have built, with the attribute dictionaries of the frame and of its signals -/
+def WFrame.expectA (f : WFrame) (k : Nat × Bool) : RFrame :=
+  { f.expect k with
+    attrs := attrsOf f.attrs,
+    sigs := f.sigs.map fun s => { sg := rereadSg s.sg, comment := s.comment, values := s.values, isFloat := s.isFloat,
+                                  muxer := s.muxer, ranges := s.ranges, attrs := attrsOf s.attrs } }
+
+/-- the attribute lines of a frame and of its signals are well formed and numeric where their definitions say so -/
+def WFrame.wfA (defs : List RDef) (f : WFrame) : Bool :=
+  wfAttrs defs .frame (.frame f.bo.id) f.attrs && f.sigs.all fun s => wfAttrs defs .signal (.signal f.bo.id s.sg.name) s.attrs
 
 end CanVerif.Dbc
